@@ -214,6 +214,7 @@ def check(ctx):
                     if sym in killed and sym in removed:
                         ctx.require(R5, killed[sym][0] < removed[sym][0], path, "group %s: pkill runs before the pid file is removed" % g["name"], ["default_hooks", "kill-order", g["name"]])
     ctx.floor(R5, "created resources paired with a removal", n_res, 4)
+    pid_file_rule(ctx, R5)
 
     R6 = ctx.rule("R6", "http-01: the proof is written to <HTTP_ROOT>/<identifier>/.well-known/acme-challenge/<file_name> with content {{ proof }}")
     doc_path = [p for p in docs_g.get("http-01-echo", {}).get("paths", []) if p.startswith("{{ env.HTTP_ROOT")]
@@ -229,7 +230,12 @@ def check(ctx):
         order = [h["name"] for h in flat_hooks(cfg, "http-01-echo")]
         ctx.require(R6, mk and order.index(mk[0]["name"]) < order.index(echo[0]["name"]), path, "mkdir precedes echo in the group", ["default_hooks", "http01-order"])
 
+    stdout_file_rule(ctx, R6)
+
     R7 = ctx.rule("R7", "git group: init before each write, add + commit after each write")
+    # the git hooks have file-* types only: they reach the account / certificate FileManager through the family filter of
+    # MainEventLoop::new (shared with C10.R3/R4)
+    ctx.shared("C10", _c10.family_rules)
     gl = flat_hooks(cfg, "git")
     by_cmd = {}
     for h in gl:
@@ -256,3 +262,83 @@ def check(ctx):
         want = ["file-pre-edit", "file-post-edit"] if exists else ["file-pre-create", "file-post-create"]
         ctx.require(R7, tr["kind"] == "return" and hk == want, "acmed/src/storage.rs", "%s %s file: the daemon runs %s (so init precedes and add + commit follow the write); evaluated: %s" % ("rewritten" if exists else "new", ft, want, hk),
                     ["storage::write_file", "file-events", "exists" if exists else "new", ft])
+
+
+def pid_file_rule(ctx, rid):
+    """`pkill -F <pid file>` of the shipped clean hook must find the RESPONDER: init_server EVALUATED for foreground x pid file.
+    In daemon mode the pid file is handed to Daemonize (written after the fork, by the surviving process) and never written by the
+    launching process before the fork; in foreground mode the process writes its own pid."""
+    from ..absint import NONE_V, Val, run, some, success_model, vbool, vstr
+    prog = ctx.prog
+    b = prog.body("acme_common::init_server")
+    if b is None:
+        ctx.fail(rid, "acme_common/src/lib.rs", "acme_common::init_server not found", ["init_server", "anchor"])
+        return
+    bool_p = [i for i in range(1, b.arg_count + 1) if b.local_ty(i) == "bool"]
+    opt_p = [i for i in range(1, b.arg_count + 1) if b.local_ty(i).startswith("core::option::Option<&")]
+    if len(bool_p) != 1 or len(opt_p) != 1:
+        ctx.ok(rid, "init_server's parameters changed shape: pid-file evaluation skipped")
+        return
+    follow = lambda cs: (cs.name or "").startswith("acme_common::") and not (cs.name or "").endswith("write_pid_file")
+    for fg in (True, False):
+        for pf in (None, "/run/P"):
+            try:
+                r = run(b, {bool_p[0]: vbool(fg), opt_p[0]: (some(Val("ref", vstr(pf))) if pf else NONE_V)}, success_model(b, None), max_steps=40000, follow=follow)
+            except Exception:
+                ctx.ok(rid, "init_server not evaluable: skipped")
+                return
+            ev = []
+            for c, a, res in r.calls:
+                n = c.name or ""
+                if n.endswith("Daemonize::start"):
+                    ev.append(("fork",))
+                elif n.endswith("Daemonize::pid_file"):
+                    ev.append(("daemon-pid-file", a[1].deref().v if len(a) > 1 and a[1].deref().k == "str" else None))
+                elif n.endswith("write_pid_file") or n.endswith("fs::File::create") or n.endswith("fs::write"):
+                    ev.append(("write-own-pid", a[0].deref().v if a and a[0].deref().k == "str" else None))
+            loc = "%s:%s" % (b.file, b.line)
+            key = ["init_server", "pid-file", "foreground" if fg else "daemon", "with" if pf else "without"]
+            if r.kind != "return":
+                ctx.ok(rid, "init_server(foreground=%s, pid_file=%s) not evaluable (%s)" % (fg, pf, r.kind))
+                continue
+            forks = [i for i, e in enumerate(ev) if e[0] == "fork"]
+            if fg:
+                want = [("write-own-pid", pf)] if pf else []
+                ctx.require(rid, ev == want, loc, "init_server(foreground, pid file %s): %s (expected %s)" % (pf, ev, want), key)
+            else:
+                ok_ = len(forks) == 1
+                before = ev[:forks[0]] if forks else ev
+                after = ev[forks[0] + 1:] if forks else []
+                if pf:
+                    ok_ = ok_ and (("daemon-pid-file", pf) in before or ("write-own-pid", pf) in after) and not any(e[0] == "write-own-pid" for e in before)
+                else:
+                    ok_ = ok_ and not [e for e in ev if e[0] != "fork"]
+                ctx.require(rid, ok_, loc, "init_server(daemon mode, pid file %s): the pid file names the process that survives the fork — events %s" % (pf, ev), key)
+
+
+def stdout_file_rule(ctx, rid):
+    """the http-01 proof is published through a hook's `stdout` file: the file must hold THIS run's output only — created with
+    File::create, or opened with truncate(true) and never append(true) (a re-run with the same token would otherwise serve the
+    proof twice)"""
+    from ..flow import arg_origins
+    prog = ctx.prog
+    from .guards import body_family
+    fam = body_family(prog, "acmed::hooks::call_single::{closure#0}") if prog.body("acmed::hooks::call_single::{closure#0}") is not None else body_family(prog, "acmed::hooks::call_single")
+    sites = [c for fb in fam for c in fb.calls if c.bb in fb.live_blocks() and (c.name or "").startswith("<std::process::Stdio as core::convert::From<std::fs::File>>::from")]
+    if not sites:
+        sites = [c for fb in fam for c in fb.calls if c.bb in fb.live_blocks() and c.fn == "core::convert::From::from" and "Stdio" in (c.name or "") and "File" in (c.name or "")]
+    ctx.floor(rid, "hook output files turned into Stdio in hooks::call_single", len(sites), 2)
+    for c in sites:
+        sl = arg_origins(c, 0, through=True)
+        names = [(x.name or "") for x in sl.calls]
+        created = any(n.endswith("fs::File::create") or n.endswith("fs::file::File::create") for n in names)
+        opened = [x for x in sl.calls if (x.name or "").endswith("OpenOptions::open")]
+        flags = {}
+        for x in sl.calls:
+            m = (x.name or "").rsplit("::", 1)[-1]
+            if "OpenOptions" in (x.name or "") and m in ("append", "truncate", "create_new") and len(x.args) > 1:
+                cv = x.body.const_of(x.args[1])
+                flags[m] = (cv or {}).get("bool", (cv or {}).get("int"))
+        good = created or (bool(opened) and flags.get("truncate") in (True, 1) and flags.get("append") not in (True, 1))
+        ctx.require(rid, good, c.where(), "a hook's stdout/stderr file starts empty at every run (File::create, or truncate(true) without append): %s %s" % (sorted({n.rsplit("::", 2)[-2] + "::" + n.rsplit("::", 1)[-1] for n in names if "File" in n or "OpenOptions" in n}), flags),
+                    ["hooks::call_single", "output-file-not-truncated"])
